@@ -17,11 +17,12 @@ LEAN_MODULES = ["Ebv.Props.C08"]
 MODEL_MODULES = ["Ebv.Model.Collect"]
 DRIVER = "Drivers/C08.lean"
 THEOREMS = [
-    "Ebv.C08.collect_disjoint", "Ebv.C08.collect_total_mod", "Ebv.C08.collect_disjoint_full_refuted",
-    "Ebv.C08.collect_sorted_aligned", "Ebv.C08.collect_aligned_pow2", "Ebv.C08.py_roundtrip",
+    "Ebv.C08.collect_disjoint_full_proved", "Ebv.C08.collect_disjoint", "Ebv.C08.keysDistinct_triples", "Ebv.C08.collect_total_mod",
+    "Ebv.C08.collect_sorted_aligned", "Ebv.C08.collect_aligned_full", "Ebv.C08.collect_aligned_pow2", "Ebv.C08.py_roundtrip",
     "Ebv.C08.percpu_slice", "Ebv.C08.percpu_index_error", "Ebv.C08.percpu_block", "Ebv.C08.stride_total",
     "Ebv.C08.prog_store_eq_pySet", "Ebv.C08.prog_load_eq_unpack",
-    "Ebv.C08.ebpf_init_partial", "Ebv.C08.ebpf_init_full_refuted", "Ebv.C08.uninitialised_keyError",
+    "Ebv.C08.ebpf_init_full_proved", "Ebv.C08.uninitialised_keyError",
+    "Ebv.C08.collect_disjoint_old_refuted", "Ebv.C08.ebpf_init_old_refuted",
 ]
 TRUSTED = ["hand-written model Ebv.Collect of ArrayMap.collect / ArrayGlobalVarDesc / PerCPUVar / EBPF.__init__ map discovery, "
            "tied by exact correspondence (positions, map sizes, map bytes, values, error kinds) on generated declaration sets",
@@ -36,7 +37,8 @@ ASSUMPTIONS = ["formats: x, or [<>!=@]?[count]c with c in bBhHiIqQ (native forma
                "x values are dyadic decimals, for which float*FIXED_BASE is an exact integer, so the setter's rounding plays no role "
                "(the float -> fixed-point conversion itself belongs to C02)"]
 RULE = ("cases = 1-12 globalVar declarations spread over a program class with 0-3 bases (chain or fan), 0-3 subprogram instances of 1-2 "
-        "classes with own bases, optional overriding redeclaration, optional map declared in a base class, optional duplicated subprogram; "
+        "classes with own bases, optional overriding redeclaration, optional map declared in a base class, optional duplicated subprogram "
+        "(the two witnesses repaired by commit 6422374 are run first); "
         "kinds: layout (Python set/get of distinct random values), prog (real program stores constants / copies variables, run in interp), "
         "percpu (emulated possible-CPU file, one program run per CPU); non-trivial = at least two variables of different sizes")
 
@@ -189,8 +191,8 @@ def fmt_of(case, key):
     return resolved(case, instances(case)[key[0]])[key[1]][1]
 
 
-def known_class(case):
-    """the classes of known findings, as predicates on the declarations"""
+def shape(case):
+    """label for the distribution table: the declaration shapes that were defects before commit 6422374"""
     specs = dict(case["classes"])
     if "m" not in specs[case["main"]]["maps"]:
         return "map-in-base"
@@ -579,7 +581,7 @@ def observe(case):
 def oracle(ctx, case, obs):
     """the property text on the implementation's behaviour: disjoint ranges inside the map; what one side wrote
     the other side reads, for every variable (first differing variable reported)"""
-    cls = known_class(case)
+    cls = None
     for mn, rs in obs["ranges"].items():
         sz = obs["sizes"].get(mn)
         bad = next((f"{k} at {p}+{s} in a map of {sz}" for p, s, k in rs
@@ -631,6 +633,10 @@ def oracle(ctx, case, obs):
                     return
 
 
+# the witnesses of the two defects repaired by commit 6422374 (override: a at 9, b at 10, map 16; map in a base class)
+WITNESSES = [{"kind": "layout", "classes": [["Leaf", {"root": "E", "bases": [], "maps": ["m"], "vars": [["v2", "m", "B"]]}], ["S0_0", {"root": "S", "bases": [], "maps": [], "vars": [["v0", "m", "B"], ["v1", "m", "B"]]}], ["S0_1", {"root": "S", "bases": ["S0_0"], "maps": [], "vars": [["v0", "m", "Q"]]}]], "main": "Leaf", "subs": [["S0_1", 1]], "sets": [[1, "v1", [7]], [1, "v0", [1]], [0, "v2", [3]]], "prog": []}, {"kind": "layout", "classes": [["B0", {"root": "E", "bases": [], "maps": ["m"], "vars": [["v0", "m", "B"]]}], ["Leaf", {"root": "E", "bases": ["B0"], "maps": [], "vars": [["v1", "m", "I"]]}]], "main": "Leaf", "subs": [], "sets": [[0, "v0", [5]], [0, "v1", [9]]], "prog": []}]
+
+
 def nontrivial(case):
     return len({csize(fmt_of(case, k)) for k in all_keys(case)}) >= 2
 
@@ -658,11 +664,12 @@ def run(ctx):
     unit_possible_cpus(ctx)
     plan = [("layout", ctx.n(2000, 40000)), ("prog", ctx.n(500, 10000)), ("percpu", ctx.n(200, 4000))]
     cases, lines = [], []
+    todo = list(WITNESSES)
     for kind, n in plan:
         for _ in range(n):
-            case = complete(ctx.rng, gen(ctx.rng, kind))
+            case = todo.pop(0) if todo else complete(ctx.rng, gen(ctx.rng, kind))
             line, mi, obs = observe(case)
-            ctx.case(case, nontrivial=nontrivial(case), kind=kind + (":" + known_class(case) if known_class(case) else ""))
+            ctx.case(case, nontrivial=nontrivial(case), kind=kind + (":" + shape(case) if shape(case) else ""))
             oracle(ctx, case, obs)
             cases.append((case, mi)); lines.append(line)
     model = ctx.drive(DRIVER, [mi for c, mi in cases], "collect")
@@ -680,15 +687,16 @@ def replay(ctx, case):
     return {"impl": line}
 
 
-LEVEL_TEXT = ("Lean 4 proof over a hand-written model of ArrayMap.collect and the accessors: for every list of programs with arbitrary class "
-              "hierarchies in which no (program, name) is collected twice, variables occupy pairwise disjoint ranges inside a map whose size is a "
-              "multiple of 8 (collect_disjoint), are aligned to their size when larger sizes are multiples of it (collect_sorted_aligned), "
-              "unpack(pack v) = v for every modelled format and only the variable's bytes change (py_roundtrip), program-side n-byte access and "
-              "Python-side access use the same bytes (prog_store_eq_pySet, prog_load_eq_unpack), CPU k's value is read from CPU k's block "
-              "(percpu_slice, percpu_block, stride_total). The unrestricted statement is refuted on the probed override witness "
-              "(collect_disjoint_full_refuted), as is 'maps of base classes are initialised' (ebpf_init_full_refuted); both are known findings. "
-              "Tie: exact correspondence of the real code with the model on generated declaration sets, incl. really generated programs run in the interpreter.")
+LEVEL_TEXT = ("Lean 4 proof over a hand-written model of ArrayMap.collect and the accessors: for every list of programs (the EBPF object and its "
+              "subprograms, possibly listed twice) with arbitrary class hierarchies, including overriding redeclarations, no (program, name) is "
+              "collected twice (keysDistinct_triples) and the variables occupy pairwise disjoint ranges inside a map whose size is a multiple of 8 "
+              "(collect_disjoint_full_proved), aligned to their size when larger sizes are multiples of it (collect_aligned_full); "
+              "unpack(pack v) = v for every modelled format and only the variable's bytes change (py_roundtrip); program-side n-byte access and "
+              "Python-side access use the same bytes (prog_store_eq_pySet, prog_load_eq_unpack); CPU k's value is read from CPU k's block "
+              "(percpu_slice, percpu_block, stride_total); maps declared in base classes are initialised (ebpf_init_full_proved). The behaviour "
+              "before commit 6422374 is refuted on its witnesses (collect_disjoint_old_refuted, ebpf_init_old_refuted). Tie: exact correspondence "
+              "of the real code with the model on generated declaration sets, incl. really generated programs run in the interpreter.")
 LEVEL_NOTE = ("trusted: Lean kernel + standard axioms; hand model validated (not verified) by differential runs; interpreter; Python struct; "
-              "emulated kernel for per-CPU lookups; program side only at byte level")
+              "emulated kernel for per-CPU lookups; program side only at byte level; variable names are distinct across the maps of one program")
 TECHNIQUE = "Lean 4 induction over the sorted collection + byte-codec lemmas; refutation by decide; differential correspondence"
 DESIGN_REF = "§4 C08"
